@@ -680,6 +680,7 @@ class Unit:
         text = rw.sub("R10", r'\bstd::fs::File\b', 'File', text)
         # R12
         text = rw.sub("R12", r'Some\(\s*&\[\s*(\w+)\.as_raw_fd\(\)\s*\]\s*\)', r'fds1(&\1)', text)
+        text = rw.sub("R12", r'Some\(\s*&\[\s*(\w+\.into_raw_fd\(\))\s*\]\s*\)', r'fd_slice1(\1)', text)
         for (rule, pat, rep) in (extra or []):
             text = rw.sub(rule, pat, rep, text, flags=re.S)
         return text
